@@ -260,6 +260,10 @@ func GenDaemon(prop string, seed uint64, tier string) *DaemonScenario {
 		if r.Bool(40) {
 			sc.BeaconIDs = append(sc.BeaconIDs, "third")
 		}
+		if r.Bool(40) {
+			// a chain the operators have generated keys for and not yet run a key generation of: it has no group
+			sc.FreshIDs = []string{"notyet"}
+		}
 		sc.N = r.Range(2, 3)
 		sc.T = r.Range(sc.N/2+1, sc.N)
 		use["stop"], use["partition"], use["loss"] = false, false, false
